@@ -233,13 +233,16 @@ def union_dispatch(ev: Ev, v: Val, f: Any) -> Val:
 	try:
 		for a in v.ty.alts:
 			tag = v.ty.is_a(a, v.term)
-			if quick_unsat(ev.st.pc + ev.guards + [tag], 100):
+			if quick_unsat(ev.st.pc + saved + [tag], 100):
 				continue
 			ev.guards[:] = saved + [tag]
 			outs.append((tag, f(Val(a, v.ty.proj(a, v.term)))))
 	finally:
 		ev.guards[:] = saved
 	if not outs:
+		if ev.mode == 'spec':
+			a0 = v.ty.alts[0]
+			return f(Val(a0, v.ty.proj(a0, v.term)))
 		raise Infeasible()
 	res = outs[-1][1]
 	for tag, o in reversed(outs[:-1]):
@@ -259,6 +262,8 @@ def to_float(ev: Ev, v: Val) -> Val:
 		return Val(FLOAT, ev.i2f(ev.coerce(v, INT).term))
 	if isinstance(v.ty, TStr):
 		ok = z3.Function('float_parsable', z3.StringSort(), z3.BoolSort())(v.term)
+		# CPython fact (trusted): float(s) accepts only non-empty strings without quote characters
+		ev.st.assume(z3.Implies(ok, z3.And(z3.Length(v.term) > 0, z3.Not(z3.Contains(v.term, z3.StringVal('"'))), z3.Not(z3.Contains(v.term, z3.StringVal("'"))))))
 		ev.exit_if(z3.Not(ok), 'ValueError')
 		return Val(FLOAT, z3.Function('s2f', z3.StringSort(), FLOAT.sort())(v.term))
 	if isinstance(v.ty, TUnion):
@@ -335,6 +340,8 @@ def b_cast(ev: Ev, n: ast.Call) -> Val:
 def b_implies(ev: Ev, n: ast.Call) -> Val:
 	a = ev.truth(n.args[0])
 	saved = list(ev.guards)
+	if quick_unsat(ev.st.pc + saved + [a], 60):
+		return Val(BOOL, z3.BoolVal(True))  # antecedent impossible on this path: the consequent need not even be well-typed here
 	ev.guards.append(a)
 	try:
 		b = ev.truth(n.args[1])
@@ -391,6 +398,11 @@ def b_last(ev: Ev, n: ast.Call) -> Val:
 	raise EngineError('last() of non-sequence')
 
 
+def b_fzero(ev: Ev, n: ast.Call) -> Val:
+	v = to_float(ev, ev.eval(n.args[0]))
+	return Val(BOOL, z3.Function('fiszero', FLOAT.sort(), z3.BoolSort())(v.term))
+
+
 def b_tuple(ev: Ev, n: ast.Call) -> Val:
 	return ev.iter_values(n.args[0])
 
@@ -398,7 +410,7 @@ def b_tuple(ev: Ev, n: ast.Call) -> Val:
 BUILTIN_FUNCS = {
 	'len': b_len, 'int': b_int, 'float': b_float, 'str': b_str, 'bool': b_bool, 'isinstance': b_isinstance,
 	'min': b_minmax('min'), 'max': b_minmax('max'), 'cast': b_cast, 'implies': b_implies, 'list': b_list,
-	'callable': b_callable, 'init': b_init, 'last': b_last, 'sorted': b_sorted, 'type': b_type, 'abs': b_abs, 'tuple': b_tuple,
+	'callable': b_callable, 'init': b_init, 'last': b_last, 'fzero': b_fzero, 'sorted': b_sorted, 'type': b_type, 'abs': b_abs, 'tuple': b_tuple,
 }
 
 
@@ -676,11 +688,18 @@ def call_spec(ev: Ev, name: str, args: list[Val]) -> Val:
 		return ev.coerce(spec_body(ev, sp.node.body, env, rty), rty)
 	key = f'rf_spec_{name}'
 	if key not in ev.eng.rec_funcs:
-		f = z3.RecFunction(key, *[t.sort() for t in ptys], rty.sort())  # type: ignore[union-attr]
+		gen = ev.eng.__dict__.setdefault('rec_gen', {}).get(key, 0)
+		zname = key if gen == 0 else f'{key}_r{gen}'
+		f = z3.RecFunction(zname, *[t.sort() for t in ptys], rty.sort())  # type: ignore[union-attr]
 		ev.eng.rec_funcs[key] = f
-		consts = [z3.Const(f'{key}_{p}', t.sort()) for p, t in zip(params, ptys)]  # type: ignore[union-attr]
+		consts = [z3.Const(f'{zname}_{p}', t.sort()) for p, t in zip(params, ptys)]  # type: ignore[union-attr]
 		env = {p: Val(t, c) for p, t, c in zip(params, ptys, consts)}
-		body = ev.coerce(spec_body(Ev(ev.eng, FnCtx.synthetic(ev.eng, f'spec:{name}'), State(), Oracle([]), 'spec'), sp.node.body, env, rty), rty)
+		try:
+			body = ev.coerce(spec_body(Ev(ev.eng, FnCtx.synthetic(ev.eng, f'spec:{name}'), State(), Oracle([]), 'spec'), sp.node.body, env, rty), rty)
+		except Exception:
+			del ev.eng.rec_funcs[key]  # never leave a declared-but-undefined recursive function behind
+			ev.eng.rec_gen[key] = gen + 1
+			raise
 		z3.RecAddDefinition(f, consts, body.term)
 	f = ev.eng.rec_funcs[key]
 	return Val(rty, f(*[a.term for a in args]))
@@ -692,7 +711,7 @@ def spec_body(ev: Ev, body: list[ast.stmt], env: dict[str, Val], rty: Ty | None 
 	for i, st in enumerate(body):
 		if isinstance(st, ast.Expr) and isinstance(st.value, ast.Constant):
 			continue
-		sub = Ev(ev.eng, ev.fn, State(env, ev.st.pc), ev.oracle, 'spec')
+		sub = Ev(ev.eng, ev.fn, State(env, ev.st.pc), ev.oracle, 'spec', None, list(ev.guards))
 		if isinstance(st, ast.Return):
 			assert st.value is not None
 			from .stmts import eval_typed
@@ -706,8 +725,14 @@ def spec_body(ev: Ev, body: list[ast.stmt], env: dict[str, Val], rty: Ty | None 
 		if isinstance(st, ast.If):
 			c = sub.truth(st.test)
 			rest = body[i + 1:]
-			a = spec_body(ev, st.body + rest, env, rty)
-			b = spec_body(ev, (st.orelse or []) + rest, env, rty)
+			saved_g = list(ev.guards)
+			try:
+				ev.guards[:] = saved_g + [c]
+				a = spec_body(ev, st.body + rest, env, rty)
+				ev.guards[:] = saved_g + [z3.Not(c)]
+				b = spec_body(ev, (st.orelse or []) + rest, env, rty)
+			finally:
+				ev.guards[:] = saved_g
 			cs = simp(c)
 			if z3.is_true(cs):
 				return a
@@ -799,7 +824,13 @@ def bind_params(ev: Ev, fs: source.FuncSrc, args: list[Val], kwargs: dict[str, V
 				ty = None
 		if fnctx.contract and nm in fnctx.contract.types:
 			ty = ev.eng.tenv.parse(fnctx.contract.types[nm])
-		env[nm] = ev.coerce(v, ty) if ty is not None and v.ty is not None else v
+		if ty is not None and v.ty is not None:
+			try:
+				env[nm] = ev.coerce(v, ty)
+			except EngineError:
+				env[nm] = v  # Python does not enforce annotations: the value keeps its own type
+		else:
+			env[nm] = v
 	if a.vararg is not None:
 		if pos and getattr(pos[0], '_star', False):
 			env[a.vararg.arg] = pos[0]
@@ -835,9 +866,9 @@ def call_function(ev: Ev, fs: source.FuncSrc, args: list[Val], kwargs: dict[str,
 		c = REG.contracts.get((fs.file, fs.qualname))
 	if ev.mode == 'spec' and (c is None or c.inline_only):
 		raise EngineError(f'contract text calls code function {fs.qualname}')
-	if c is not None and not c.inline_only:
+	if c is not None and not c.inline_only and not c.inline_calls:
 		return modular_call(ev, fs, c, args, kwargs, recv, recv_name, want_self)
-	return inline_call(ev, fs, args, kwargs, recv=recv, recv_name=recv_name, want_self=want_self, contract=c)
+	return inline_call(ev, fs, args, kwargs, recv=recv, recv_name=recv_name, want_self=want_self, contract=c if c is not None and c.inline_only else None)
 
 
 def self_param(fs: source.FuncSrc) -> str | None:
